@@ -17,6 +17,33 @@ type StrV struct {
 	B     []*Term // bv8, capacity (nil while lazy: see R)
 	R     *Rope   // optional token structure: string == join(tokens, "/"), every piece is '/'-free
 	EscOf *StrV   // set on the result of jsonpointer.Escape: the string it is the escaped form of
+	Ch    *strChoice // lazy merge: the string is A under C, else B (B and R are nil then); forced by fl()
+}
+
+// strChoice keeps the two sides of a merged string apart, so that structure (ropes, constants) survives joins and
+// equality / token functions distribute over the alternatives instead of working on ite-merged bytes.
+type strChoice struct {
+	C    *Term
+	A, B StrV
+	flat *StrV
+}
+
+func flatMerge(c *Term, x, y StrV) StrV {
+	x, y = fl(x), fl(y)
+	n := max(len(x.B), len(y.B))
+	out := make([]*Term, n)
+	z := BV(8, 0)
+	for i := 0; i < n; i++ {
+		p, q := z, z
+		if i < len(x.B) {
+			p = x.B[i]
+		}
+		if i < len(y.B) {
+			q = y.B[i]
+		}
+		out[i] = Ite(c, p, q)
+	}
+	return StrV{Len: Ite(c, x.Len, y.Len), B: out}
 }
 
 // Rope: the string is the "/"-join of Toks; a token is the concatenation of its pieces (flat, '/'-free strings).
@@ -66,6 +93,16 @@ func ropeConcat(a, b *Rope) *Rope {
 
 // fl returns the flat view of a string, materialising a lazy rope once.
 func fl(s StrV) StrV {
+	if s.B == nil && s.Ch != nil {
+		if s.Ch.flat == nil {
+			f := flatMerge(s.Ch.C, s.Ch.A, s.Ch.B)
+			if f.B == nil {
+				f.B = []*Term{}
+			}
+			s.Ch.flat = &f
+		}
+		return *s.Ch.flat
+	}
 	if s.B != nil || s.R == nil {
 		return s
 	}
@@ -193,6 +230,7 @@ type Obj struct {
 	ValC    []Value
 	VerC    map[int]int // map obj -> log length at cache time
 	MapObj int
+	Snap   map[int]int // map object -> length of its write log when the range started
 	Cur    []CurAlt
 	Epoch  int // allocation order (for freeze)
 }
@@ -204,7 +242,7 @@ func StrC(s string) StrV {
 }
 
 func (s StrV) Concrete() (string, bool) {
-	if !s.Len.IsConst() {
+	if !s.Len.IsConst() || (s.B == nil && s.Ch != nil) {
 		return "", false
 	}
 	s = fl(s)
@@ -324,22 +362,18 @@ func mergeV(c *Term, a, b Value) Value {
 	case IntV:
 		return IntV{Ite(c, x.T, b.(IntV).T)}
 	case StrV:
-		y := fl(b.(StrV))
-		x = fl(x)
-		n := max(len(x.B), len(y.B))
-		out := make([]*Term, n)
-		z := BV(8, 0)
-		for i := 0; i < n; i++ {
-			p, q := z, z
-			if i < len(x.B) {
-				p = x.B[i]
+		y := b.(StrV)
+		if (x.R != nil || x.Ch != nil) && (y.R != nil || y.Ch != nil) {
+			// keep structured strings apart (lazy merge)
+			if y.Ch != nil && y.Ch.C == c {
+				y = y.Ch.B
 			}
-			if i < len(y.B) {
-				q = y.B[i]
+			if x.Ch != nil && x.Ch.C == c {
+				x = x.Ch.A
 			}
-			out[i] = Ite(c, p, q)
+			return StrV{Len: Ite(c, x.Len, y.Len), Ch: &strChoice{C: c, A: x, B: y}}
 		}
-		return StrV{Len: Ite(c, x.Len, y.Len), B: out}
+		return flatMerge(c, x, y)
 	case StructV:
 		y := b.(StructV)
 		same := true
@@ -541,6 +575,12 @@ func eqV(a, b Value) *Term {
 		return Eq(x.T, b.(IntV).T)
 	case StrV:
 		y := b.(StrV)
+		if x.B == nil && x.Ch != nil {
+			return Ite(x.Ch.C, eqV(x.Ch.A, y), eqV(x.Ch.B, y))
+		}
+		if y.B == nil && y.Ch != nil {
+			return Ite(y.Ch.C, eqV(x, y.Ch.A), eqV(x, y.Ch.B))
+		}
 		if x.R != nil && y.R != nil {
 			return ropeEq(x.R, y.R)
 		}
@@ -676,6 +716,9 @@ func identical(a, b Value) bool {
 	case StrV:
 		y, ok := b.(StrV)
 		if ok && x.R != nil && x.R == y.R {
+			return true
+		}
+		if ok && x.Ch != nil && x.Ch == y.Ch {
 			return true
 		}
 		return ok && x.B != nil && y.B != nil && x.Len == y.Len && len(x.B) == len(y.B) && (len(x.B) == 0 || &x.B[0] == &y.B[0])
